@@ -205,7 +205,13 @@ ElemsOk(v, f, es, j, opt) ==
        /\ ElemsOk(v, f, es, j + 1, opt)
 
 FieldNames(v) == {TypeOf(v).fields[j].name : j \in 1..Len(TypeOf(v).fields)}
-TextAttr(f) == IF "text_output" \in DOMAIN f THEN f.text_output ELSE ""
+TextAttrOf(f) == IF "text_output" \in DOMAIN f THEN f.text_output ELSE ""
+(* The names of the members of an anonymous `bits' belong to the enclosing structure ("as if they were fields of the
+   structure"): what the member says about its text output holds for the name in the structure's text. *)
+TextAttrIn(tn, f) ==
+  IF f.kind = "virt" /\ f.anon /\ Len(f.alias) = 2
+  THEN LET c == FieldNamed(tn, f.alias[1]) IN TextAttrOf(FieldNamed(c.type, f.alias[2]))
+  ELSE TextAttrOf(f)
 RECURSIVE RefHeads(_)
 RefHeads(e) ==
   CASE e.k \in {"ref", "present"} -> {e.path[1]}
@@ -221,11 +227,11 @@ TreeBad(v, tree, opt) ==
       fld(j) == FieldNamed(v.t, tree[j].n)
   IN (IF \E j \in 1..Len(tree) : ~nameOk(j) THEN {"EmittedNameIsAField"} ELSE {})
      \cup (IF \E j \in 1..Len(tree) : nameOk(j) /\ (~(Has(v, fld(j)) = Known(TRUE)) \/ (fld(j).kind = "sub" /\ fld(j).anon)) THEN {"EmittedFieldIsPresent"} ELSE {})
-     \cup (IF \E j \in 1..Len(tree) : nameOk(j) /\ TextAttr(fld(j)) = "Skip" THEN {"SkipIsAbsent"} ELSE {})
-     \cup (IF \E k \in 1..Len(fs) : TextAttr(fs[k]) = "Emit" /\ Has(v, fs[k]) = Known(TRUE) /\ IdxOf(tree, fs[k].name) = 0 THEN {"EmitIsPresent"} ELSE {})
+     \cup (IF \E j \in 1..Len(tree) : nameOk(j) /\ TextAttrIn(v.t, fld(j)) = "Skip" THEN {"SkipIsAbsent"} ELSE {})
+     \cup (IF \E k \in 1..Len(fs) : TextAttrIn(v.t, fs[k]) = "Emit" /\ Has(v, fs[k]) = Known(TRUE) /\ IdxOf(tree, fs[k].name) = 0 THEN {"EmitIsPresent"} ELSE {})
      \cup (IF \E k \in 1..Len(fs) :
-                 /\ (fs[k].kind \in {"scalar", "array"} \/ (fs[k].kind = "sub" /\ ~fs[k].anon))
-                 /\ TextAttr(fs[k]) # "Skip" /\ Has(v, fs[k]) = Known(TRUE) /\ IdxOf(tree, fs[k].name) = 0
+                 /\ (fs[k].kind \in {"scalar", "array"} \/ (fs[k].kind = "sub" /\ ~fs[k].anon) \/ (fs[k].kind = "virt" /\ fs[k].anon))
+                 /\ TextAttrIn(v.t, fs[k]) # "Skip" /\ Has(v, fs[k]) = Known(TRUE) /\ IdxOf(tree, fs[k].name) = 0
            THEN {"PresentFieldIsEmitted"} ELSE {})
      \cup (IF \E j \in 1..Len(tree) : nameOk(j) /\ \E d \in LocDeps(fld(j)) : IdxOf(tree, d) > j THEN {"EmittedAfterDependencies"} ELSE {})
      \cup (IF \E j \in 1..Len(tree) : nameOk(j) /\ Has(v, fld(j)) = Known(TRUE) /\ ~(fld(j).kind = "sub" /\ fld(j).anon) /\ ~ValueOk(v, fld(j), tree[j].v, opt)
